@@ -104,6 +104,23 @@ def correspond_dividecell(name, cells, lmin, num_ov, cell_ovs, iters, seed, stat
     if rc != 0 or not lines or lines[-1] != "END":
         V.fail_tie("correspondence", "tissue with divide_cell, scenario %s: model driver answered %r (rc %s) %s" % (name, lines[-1:] if lines else None, rc, err[-200:]))
         return None
+    # run-time evaluation of the hypotheses of Properties/C14DivisionInvariants.lean, appended by the driver after ` # ` (stripped
+    # here, before anything is compared): `dok <held> <not_met>` = `daughtersOkB` over the executed divisions of the iteration,
+    # `cok0 <n_ok> <n_cells>` = `cellOkB` of the cells of the initial state.  A not-met is not a violation: the theorem does not apply.
+    dok_held = dok_not = 0
+    cok0 = None
+    stripped = []
+    for l in lines:
+        if " # " in l:
+            l, tail = l.split(" # ", 1)
+            t = tail.split()
+            if t[:1] == ["dok"] and len(t) >= 3:
+                dok_held += int(t[1])
+                dok_not += int(t[2])
+            elif t[:1] == ["cok0"] and len(t) >= 3:
+                cok0 = (int(t[1]), int(t[2]))
+        stripped.append(l)
+    lines = stripped
     mtext, mds = CPOP.split_ds("\n".join(l for l in lines if not l.startswith(("O ", "H ", "DC "))))
     model, mexc = CPOP.parse_pslots(mtext)
     dom, hyp, mcent = {}, {}, {}
@@ -210,10 +227,15 @@ def correspond_dividecell(name, cells, lmin, num_ov, cell_ovs, iters, seed, stat
           "divisions": sum(d["divisions"] for d in D), "ready_cells": sum(d["ready"] for d in D), "failed_divisions": sum(d["ready"] - d["divisions"] for d in D),
           "division_iterations": [i for i in its if i in dom and dom[i]["divisions"]], "removals": sum(d["removed"] for d in D), "splits": sum(d["splits"] for d in D),
           "collapses": sum(d["merges"] for d in D), "rebases": sum(1 for d in D if d["rebased"]), "stepOk_false": bad[:5], "insOk_false": [i for i in its if i in dom and not dom[i]["insOk"]][:5],
+          "daughters_cellok_held": dok_held, "daughters_cellok_not_met": dok_not, "initial_cells_cellok": list(cok0) if cok0 else None,
           "real_exception": rexc, "doubles": ncmp, "doubles_of_lists_after_divider": ndau, "centroid_doubles": ncent, "worst_ulps": worst, "real_wall": round(rr["wall"], 2), "model_wall": round(mwall, 2)}
     stats["scenarios"].append(sc)
     for key in ("divisions", "failed_divisions", "removals", "splits", "collapses", "rebases", "divide_cell_calls", "poisson_points", "interface_triangles"):
         stats[key] = stats.get(key, 0) + sc[key]
+    stats["division_daughters_cellok_held"] = stats.get("division_daughters_cellok_held", 0) + dok_held
+    stats["division_daughters_cellok_not_met"] = stats.get("division_daughters_cellok_not_met", 0) + dok_not
+    ic = stats.get("initial_cells_cellok", [0, 0])
+    stats["initial_cells_cellok"] = [ic[0] + (cok0[0] if cok0 else 0), ic[1] + (cok0[1] if cok0 else 0)]
     stats["second_generation_divisions"] = stats.get("second_generation_divisions", 0) + (1 if len(sc["division_iterations"]) >= 2 else 0)
     stats["doubles_compared"] = stats.get("doubles_compared", 0) + ncmp
     stats["doubles_of_daughters_as_returned"] = stats.get("doubles_of_daughters_as_returned", 0) + ndau
